@@ -170,6 +170,14 @@ def hash_menu(rng):
           ("blanks", " ".join("%02x" % b for b in hs[3])),
           ("blank-edges", " " + hs[3].hex() + "\n"),
           ("0x", "0x" + hs[3].hex()), ("null", None), ("number", 7),
+          # 64 characters that encode only 31 (30) bytes: blanks counted as if they were digits
+          ("chars64-31bytes-trail", hs[2].hex()[:62] + "  "), ("chars64-31bytes-lead", "  " + hs[2].hex()[:62]),
+          ("chars64-31bytes-inner", hs[2].hex()[:31] + " " + hs[2].hex()[31:61] + " "),
+          ("chars64-31bytes-tab", hs[2].hex()[:62] + "\t\n"), ("chars64-30bytes", hs[2].hex()[:30] + "  " + hs[2].hex()[30:60] + "  "),
+          ("chars67-33bytes-blank", hs[2].hex() + " ab"),
+          # 64 digits (a genuine 32-byte hash) plus blanks elsewhere: longer than 64 characters
+          ("blank-pairs", " ".join(hs[3].hex()[i:i + 8] for i in range(0, 64, 8))),
+          ("blank-tab-inner", hs[3].hex()[:32] + "\t" + hs[3].hex()[32:]),
           ("fullwidth-digits", hs[3].hex().translate({0x30 + i: 0xFF10 + i for i in range(10)})),
           ("0X", "0X" + hs[3].hex())]
     return m
@@ -287,6 +295,13 @@ class C17(Check):
         r2 = Rng("c17-apps")
         self.apps = [ihex.build((300, 17), (4096,), "cross", r2.bytes),
                      ihex.build((16,), (), "low", r2.bytes)]
+        # the second image is ground until its SHA-256 starts with a 00 byte (leading zeros
+        # must survive every conversion of the hash)
+        for i in range(100000):
+            cand = ihex.build((16,), (), "low", Rng("c17-app1-%d" % i).bytes)
+            if ihex.reference_hash(cand)[0] == 0:
+                self.apps[1] = cand
+                break
         self.app_text = [ihex.write(self.apps[0], policy=32, order=[1, 0]),
                          ihex.write(self.apps[1], policy=16)]
         self.app_hash = [ihex.reference_hash(a) for a in self.apps]
@@ -1001,7 +1016,7 @@ class C17(Check):
         del h
         # the generator signing into an existing file that spells the hash leniently
         for hname, hval in self.hmenu:
-            if ref_hash(hval)[0] != "open":
+            if ref_hash(hval)[0] == "valid" or not isinstance(hval, str):
                 continue
             for it in (7, 65535):
                 self.x_signapp_key_existing(Args(hash=hval, hname=hname, iter=it, key=1), stats, vs)
@@ -1009,11 +1024,20 @@ class C17(Check):
     def x_signapp_key_existing(self, a, stats, vs):
         """args: hash (string as written in an existing file), hname, iter, key"""
         stats.evaluations += 1
-        stats.dont_care += 1
-        h32 = ref_hash(a.hash)[1]
         doc = {"version": 1, "signer": {"hash": a.hash, "iteration": a.iter}, "signatures": []}
         outp = self.td.write("auth.json", json.dumps(doc))
+        held = self.td.read("auth.json")
         r = self.run_signapp(["key", "-o", outp, "-k", self.keys[a.key].hex()])
+        if ref_hash(a.hash)[0] == "refuse":
+            # a malformed hash in the existing file: nothing is signed, the file stays as it was
+            stats.observe(("signapp-key-existing-malformed", a.hname, r.code))
+            if r.code == 0 or not same_content(self.td.read("auth.json"), held):
+                self.viol(vs, "malformed-accepted", "signapp-key-existing-file:%s" % a.hname,
+                          "signapp_key_existing", dict(a), {"exit": r.code, "file": self.td.read("auth.json")},
+                          {"exit": "nonzero", "file": "unchanged"})
+            return
+        stats.dont_care += 1
+        h32 = ref_hash(a.hash)[1]
         try:
             d = json.loads(self.td.read("auth.json"))
         except Exception:   # noqa
